@@ -97,6 +97,24 @@ if __name__ == '__main__':
                     if abs(f(x) - ref(x)) > 1e-9 * max(1.0, abs(ref(x))): rep.dev('trans-at-origin-%d' % k, dict(kind='text', defn=defn, r=x), 'value at r=%r: %r' % (x, f(x)), ref(x)); break
                 else: rep.ok()
             except Exception as e: rep.dev('trans-at-origin-%d' % k, dict(kind='text', defn=defn), 'exception %r' % (e,), 'a potential')
+        # modifiers nested in modifiers where the inner one carries its own ranges ("at any nesting depth"), and pow at a point where
+        # base and exponent both vanish (0.0 ** 0.0 is 1.0)
+        step = lambda r, s_: 1.0 if r >= s_ else 0.0
+        for k, (defn, ref, xs) in enumerate([
+                ('sum(as.constant 1.0, >=2.05 sum(as.constant 3.0, as.constant 4.0))', lambda r: 1.0 + 7.0 * step(r, 2.05), (0.5, 2.0, 2.05, 3.0)),
+                ('sum(sum(as.constant 1.0, as.constant 2.0) >=3.05 as.zero, as.constant 5.0)', lambda r: 5.0 + (3.0 if r < 3.05 else 0.0), (0.5, 3.0, 3.05, 4.0)),
+                ('product(as.constant 2.0, sum(as.constant 1.0, >=1.5 sum(as.constant 1.0, as.constant 1.0)))', lambda r: 2.0 * (1.0 + 2.0 * step(r, 1.5)), (0.5, 1.5, 2.5)),
+                ('sum(as.constant 1.0, sum(as.constant 2.0, >=2.5 product(as.constant 3.0, as.constant 2.0)))', lambda r: 3.0 + 6.0 * step(r, 2.5), (1.0, 2.5, 4.0)),
+                ('pow(as.polynomial -2.0 1.0, as.polynomial -2.0 1.0)', lambda r: (r - 2.0) ** (r - 2.0) if r != 2.0 else 1.0, (2.0, 3.0, 4.5)),
+                ('pow(as.polynomial -2.0 1.0, as.polynomial 0.0 1.0 >=1.5 as.zero)', lambda r: (r - 2.0) ** (r if r < 1.5 else 0.0), (2.0, 2.5, 3.0))]):
+            rep.case('nested-with-ranges', defn)
+            try:
+                f = build('A-B : ' + defn)
+                for x in xs:
+                    want = ref(x); got = f(x)
+                    if abs(got - want) > 1e-9 * max(1.0, abs(want)): rep.dev('nested-with-ranges-%d' % k, dict(kind='text', defn=defn, r=x), 'value at r=%r: %r' % (x, got), want); break
+                else: rep.ok()
+            except Exception as e: rep.dev('nested-with-ranges-%d' % k, dict(kind='text', defn=defn), 'exception %r' % (e,), 'a potential')
         for i in range(pl.get('n', 60)):
             c = gen_case(rng, i); rep.case(c['kind'], c); check_case(rep, c, 'seeded-%d' % i)
     rep.finish()
